@@ -28,6 +28,9 @@ type DKGView struct {
 	Threshold    uint32
 	Participants map[uint64]string
 	SharePub     []byte
+	// StoredShareProblem is non-empty when the account as read back from the participant's store cannot be opened
+	// with the passphrase the generation was given, or opens to a key other than SharePub.
+	StoredShareProblem string
 }
 
 // EvalVVec evaluates the verification vector (a polynomial of public keys) at a participant id.
@@ -61,6 +64,9 @@ func CheckDKGViews(views []DKGView, returned []byte, t uint32, ids []uint64) []s
 	want := append([]uint64(nil), ids...)
 	sort.Slice(want, func(i, j int) bool { return want[i] < want[j] })
 	for _, v := range views {
+		if v.StoredShareProblem != "" {
+			problems = append(problems, fmt.Sprintf("participant %d holds the account but not a usable private share: %s", v.ID, v.StoredShareProblem))
+		}
 		if !bytes.Equal(v.Composite, returned) {
 			problems = append(problems, fmt.Sprintf("participant %d holds composite key %x, the client was told %x", v.ID, v.Composite[:6], returned[:min(6, len(returned))]))
 		}
